@@ -1,0 +1,18 @@
+//go:build verif
+
+// Contracts of package crypto for the govc verifier (/verif). Comment-only
+// file, compiled only with the build tag `verif`.
+package crypto
+
+//@ func HashToCurve
+//@   tags C11
+//@   ensures @spec err == nil ==> result != nil && pk.pt(*result) == h2c(bytes(message))
+//@   ensures @errnil err != nil ==> result == nil
+
+//@ func SignBlindedMessage
+//@   tags C10
+//@   ensures @nonnil result != nil
+
+//@ func GenerateDLEQ
+//@   tags C10
+//@   ensures @nonnil r0 != nil && r1 != nil
